@@ -984,6 +984,10 @@ class World:
             return "skipped"
         if dh == h and dest in model.subtree(uid):
             return "skipped"
+        if dh != h and self.version(h) != self.version(dh) and any(
+                model.recs[u]["cls"].endswith("DrillholeGroup") and any(model.recs[c]["kind"] != "data" and "Drillhole" not in model.recs[c]["cls"] for c in model.recs[u]["children"])
+                for u in model.subtree(uid)):
+            return "skipped"    # (a version-1.0 drillhole group that holds other things than holes has no counterpart in the concatenated store)
         ent = self.ent(h, uid)
         parent = self.ent(dh, dest)
         before_src = {u: dict(model.recs[u]) for u in model.subtree(uid)}
@@ -1003,6 +1007,13 @@ class World:
             self.sim.probe("copy_data_masked")
         new, outcome = self.call(lambda: ent.copy(**kw), what=f"copy {rec['cls']}")
         del ent, parent
+        if outcome.startswith("raised:") and self.prop == "C12" and rec.get("concat_group") and dh != h:
+            # a drillhole group that cannot be copied into the other workspace at all is a copy that differs from its source
+            again = any(c["src"] == uid and c["h"] == h and c["dh"] == dh for c in self.copies) or uid in dmodel.all_ids() \
+                or any(u in dmodel.all_ids() or u in dmodel.zombies for u in model.subtree(uid))
+            self.suspect = None
+            raise Violation("C12", "copy_raises", f"copying a drillhole group into the other workspace (version {self.version(dh)}) raised {outcome.split(':', 1)[1]}",
+                            {"cls": "DrillholeGroup", "exc": outcome.split(":", 1)[1], "again": bool(again), **({"to_version": self.version(dh)} if self.version(dh) < 2.0 else {})})
         if outcome != "ok" or new is None:
             return outcome if outcome != "ok" else "raised:None"
         new_recs = snapshot.subtree(self.h[dh].ws, new)
